@@ -107,13 +107,18 @@ macro_rules! cut_harness {
     };
 }
 cut_harness!(cuts_a, 0, 1, 2, 3, 4, 10, 18, 19);
-cut_harness!(cuts_b, 20, 21, 37, 38);
-cut_harness!(cuts_b2, 22, 23, 30);
 cut_harness!(cuts_c, 5, 6, 7, 8, 9, 11);
 cut_harness!(cuts_c2, 12, 13, 14, 15, 16, 17);
-cut_harness!(cuts_d, 24, 25, 26, 27);
-cut_harness!(cuts_d2, 28, 29, 31, 32);
-cut_harness!(cuts_d3, 33, 34, 35, 36);
+cut_harness!(cuts_s0, 20, 38);
+cut_harness!(cuts_s1, 21, 37);
+cut_harness!(cuts_s2, 22, 30);
+cut_harness!(cuts_s3, 23, 24);
+cut_harness!(cuts_s4, 25, 26);
+cut_harness!(cuts_s5, 27, 28);
+cut_harness!(cuts_s6, 29, 31);
+cut_harness!(cuts_s7, 32, 33);
+cut_harness!(cuts_s8, 34, 35);
+cut_harness!(cuts_s9, 36);
 
 /// one block of 64 zero-width items: the count needs a two-byte varint (0x80 0x01), byte size 0.
 fn region64() -> [u8; 19] {
@@ -190,24 +195,37 @@ marker_harness!(marker_first_4, 0, 7, 8);
 marker_harness!(marker_first_5, 0, 9, 10);
 marker_harness!(marker_first_6, 0, 11, 12);
 marker_harness!(marker_first_7, 0, 13, 14);
-marker_harness!(marker_second_0, 1, 0, 15);
-marker_harness!(marker_second_1, 1, 1, 2);
-marker_harness!(marker_second_2, 1, 3, 4);
-marker_harness!(marker_second_3, 1, 5, 6);
-marker_harness!(marker_second_4, 1, 7, 8);
-marker_harness!(marker_second_5, 1, 9, 10);
-marker_harness!(marker_second_6, 1, 11, 12);
-marker_harness!(marker_second_7, 1, 13, 14);
+marker_harness!(marker_second_p0, 1, 0);
+marker_harness!(marker_second_p1, 1, 1);
+marker_harness!(marker_second_p2, 1, 2);
+marker_harness!(marker_second_p3, 1, 3);
+marker_harness!(marker_second_p4, 1, 4);
+marker_harness!(marker_second_p5, 1, 5);
+marker_harness!(marker_second_p6, 1, 6);
+marker_harness!(marker_second_p7, 1, 7);
+marker_harness!(marker_second_p8, 1, 8);
+marker_harness!(marker_second_p9, 1, 9);
+marker_harness!(marker_second_p10, 1, 10);
+marker_harness!(marker_second_p11, 1, 11);
+marker_harness!(marker_second_p12, 1, 12);
+marker_harness!(marker_second_p13, 1, 13);
+marker_harness!(marker_second_p14, 1, 14);
+marker_harness!(marker_second_p15, 1, 15);
 
 pub const HARNESSES: &[(&str, fn())] = &[
     ("c14::cuts_a", cuts_a::body),
-    ("c14::cuts_b", cuts_b::body),
-    ("c14::cuts_b2", cuts_b2::body),
     ("c14::cuts_c", cuts_c::body),
     ("c14::cuts_c2", cuts_c2::body),
-    ("c14::cuts_d", cuts_d::body),
-    ("c14::cuts_d2", cuts_d2::body),
-    ("c14::cuts_d3", cuts_d3::body),
+    ("c14::cuts_s0", cuts_s0::body),
+    ("c14::cuts_s1", cuts_s1::body),
+    ("c14::cuts_s2", cuts_s2::body),
+    ("c14::cuts_s3", cuts_s3::body),
+    ("c14::cuts_s4", cuts_s4::body),
+    ("c14::cuts_s5", cuts_s5::body),
+    ("c14::cuts_s6", cuts_s6::body),
+    ("c14::cuts_s7", cuts_s7::body),
+    ("c14::cuts_s8", cuts_s8::body),
+    ("c14::cuts_s9", cuts_s9::body),
     ("c14::cuts_two_byte_count", cuts_two_byte_count::body),
     ("c14::marker_first_0", marker_first_0::body),
     ("c14::marker_first_1", marker_first_1::body),
@@ -217,12 +235,20 @@ pub const HARNESSES: &[(&str, fn())] = &[
     ("c14::marker_first_5", marker_first_5::body),
     ("c14::marker_first_6", marker_first_6::body),
     ("c14::marker_first_7", marker_first_7::body),
-    ("c14::marker_second_0", marker_second_0::body),
-    ("c14::marker_second_1", marker_second_1::body),
-    ("c14::marker_second_2", marker_second_2::body),
-    ("c14::marker_second_3", marker_second_3::body),
-    ("c14::marker_second_4", marker_second_4::body),
-    ("c14::marker_second_5", marker_second_5::body),
-    ("c14::marker_second_6", marker_second_6::body),
-    ("c14::marker_second_7", marker_second_7::body),
+    ("c14::marker_second_p0", marker_second_p0::body),
+    ("c14::marker_second_p1", marker_second_p1::body),
+    ("c14::marker_second_p2", marker_second_p2::body),
+    ("c14::marker_second_p3", marker_second_p3::body),
+    ("c14::marker_second_p4", marker_second_p4::body),
+    ("c14::marker_second_p5", marker_second_p5::body),
+    ("c14::marker_second_p6", marker_second_p6::body),
+    ("c14::marker_second_p7", marker_second_p7::body),
+    ("c14::marker_second_p8", marker_second_p8::body),
+    ("c14::marker_second_p9", marker_second_p9::body),
+    ("c14::marker_second_p10", marker_second_p10::body),
+    ("c14::marker_second_p11", marker_second_p11::body),
+    ("c14::marker_second_p12", marker_second_p12::body),
+    ("c14::marker_second_p13", marker_second_p13::body),
+    ("c14::marker_second_p14", marker_second_p14::body),
+    ("c14::marker_second_p15", marker_second_p15::body),
 ];
